@@ -54,14 +54,27 @@ class RuleDef:
     floor: int
     doc: str
     section: str = ""
+    soft: bool = False  # three-valued rule: an unrecognised shape makes it UNDECIDED, not an analysis error
 
 
 RULES: Dict[str, RuleDef] = {}
 
 
+# Rules that pin down what individual (small) functions compute.  They are three-valued: when the constructs a
+# clause reads are not recognised on a changed tree, the clause - or, if the rule cannot even find its anchor shape, the
+# whole rule - is UNDECIDED (reported, counted, exit 0), never a violation and never an analysis error.  Structural
+# rules (ownership, pairing, guards, ordering, effects, locking, exhaustiveness) are not in this list: for them an
+# unrecognised shape is an ANALYSIS-ERROR (exit 2).
+SOFT_RULES = {
+    "ORDER-TRAV", "SIB-ITER", "EXH-2", "SIB-FILTER", "COPY-LINEAR", "FMT", "RENDER", "SIB-EXPORT", "DIFF", "FS", "GEN", "SEARCH",
+    "PARENT-WALK", "KIND-BRANCH", "SORT-GUARD", "EXH-5", "LIMIT", "REGEX-FULL", "RANGE-GUARD", "EXIST-CMP", "DATAID-DEF", "ITER-NORET",
+    "FRAME", "STALE-ALIAS",
+}
+
+
 def rule(name: str, props: Sequence[str], floor: int, section: str = ""):
     def deco(fn):
-        RULES[name] = RuleDef(name, tuple(props), fn, floor, (fn.__doc__ or "").strip(), section)
+        RULES[name] = RuleDef(name, tuple(props), fn, floor, (fn.__doc__ or "").strip(), section, name in SOFT_RULES)
         return fn
 
     return deco
@@ -140,6 +153,15 @@ class Ctx:
             return o
         return self.ob(rule, props, f_or_site, construct, node, bool(ok), "" if ok else detail, path)
 
+    def guarded(self, obs: list, rule: str, props, f_or_site, label: str, fn) -> None:
+        """Run one block of a (three-valued) rule; if the block cannot find the shape it reads
+        (AnalysisError), the block's clauses are reported as one UNDECIDED obligation instead of
+        failing the whole rule."""
+        try:
+            fn()
+        except AnalysisError as e:
+            obs.append(self.tri(rule, props, f_or_site, label, None, None, str(e)))
+
     def doc_text(self, name: str) -> str:
         p = os.path.join(self.root, "docs", "sphinx", name)
         try:
@@ -158,7 +180,9 @@ def _binds_name(n, name: str) -> bool:
 def run_rule(ctx: Ctx, rd: RuleDef) -> List[Ob]:
     try:
         obs = rd.fn(ctx)
-    except AnalysisError:
+    except AnalysisError as e:
+        if rd.soft and "vanished" not in str(e) and "not found in" not in str(e):
+            return [ctx.tri(rd.name, rd.props, "package", f"{rd.name}: " + rd.doc.split(";")[0][:120], None, None, str(e))]
         raise
     except RecursionError:
         raise
@@ -169,7 +193,7 @@ def run_rule(ctx: Ctx, rd: RuleDef) -> List[Ob]:
         where = f"{tb[-1].filename.split('/')[-1]}:{tb[-1].lineno}" if tb else "?"
         raise AnalysisError(f"rule {rd.name} could not analyse this shape ({type(e).__name__}: {e} at {where})") from e
     n = sum(1 for o in obs if not o.note or o.undecided)
-    if n < rd.floor:
+    if n < rd.floor and not (rd.soft and any(o.undecided for o in obs)):
         raise AnalysisError(
             f"rule {rd.name}: {n} instances matched, below the hand-confirmed floor {rd.floor} "
             "(a rule matching too few sites would pass vacuously)"
